@@ -172,7 +172,7 @@ Example C04_concrete_history :
   /\ res_values (cfs_data s) = [1 # 2]
   (* the status code: sample() = 1 and unchanged stored arrays are accepted, a stale value or
      normalised stored counts are not *)
-  /\ c04_hist_case 2 s h (Some (run_calls h s)) (Some ([Some 1], [[Some (-1)]; [Some (3 # 2)]])) = 0%nat
-  /\ c04_hist_case 2 s h (Some (run_calls h s)) (Some ([Some (1 # 2)], [[Some (-1)]; [Some (3 # 2)]])) = 3%nat
-  /\ c04_hist_case 2 s h (Some (run_calls_inplace h s)) (Some ([Some 1], [[Some (-1)]; [Some (3 # 2)]])) = 8%nat.
+  /\ c04_hist_case 2 s h (Some (run_calls h s)) (Some ([Some 1], [[Some 0]; [Some 2]])) = 0%nat
+  /\ c04_hist_case 2 s h (Some (run_calls h s)) (Some ([Some (1 # 2)], [[Some 0]; [Some 2]])) = 3%nat
+  /\ c04_hist_case 2 s h (Some (run_calls_inplace h s)) (Some ([Some 1], [[Some 0]; [Some 2]])) = 8%nat.
 Proof. vm_compute. repeat split; reflexivity. Qed.
